@@ -112,6 +112,24 @@ CHECKS = {
     note="Trusted: TLC; sha256 of saved bytes as opaque observation; SOURCE_DATE_EPOCH pinned.",
     technique="TLA+ history/memo model; TLC check + TLC validation of digests logged by fresh subprocesses across environments",
     design="5 C08"),
+ "C09": dict(
+    text="The joint-decision model of the interpolatable filters (IJointModel, CompatibleMasters in Filters.tla) is checked by TLC "
+         "with the filter algebra; every generated family (2-3 compatible masters, differing 2x2, sparse layer master, flatten, "
+         "skip list) is compiled through the three interpolatable paths and TLC validates: compiled masters agree in per-glyph "
+         "point structure (placeholders exempt), sparse master glyph set within {.notdef, layer, component closure}, and every "
+         "consecutive pair of exact hook snapshots (IPreStart / IFilter / Cu2QuI) stays compatible.",
+    note="Trusted: TLC; glyf/CFF structure projection; cu2qu and the Instantiator-based interpolation of sparse composites are environment.",
+    technique="TLA+ joint-filter model; TLC validation of compiled master structures and per-stage hook snapshots",
+    design="5 C09"),
+ "C10": dict(
+    text="The compile_variable protocol of Purity.tla (save / override / restore options, merge, variable features) is checked by "
+         "TLC and validated on the hook events of every variable compile; the variable font is instantiated at each full "
+         "master's location and (a) compared with the interpolatable master (deviation <= 1 unit, same structure), (b) its GPOS "
+         "is evaluated by the TLA+ interpreter (KernTrace / MarkTrace) against THAT master's UFO kerning (UFO precedence = the "
+         "DS+UFO exception-fallback rule) and anchors.",
+    note="Trusted: TLC; fontTools varLib merge and instancer (environment); outline deviation measured by the harness.",
+    technique="TLA+ GPOS interpreter + protocol model evaluated by TLC on instances of real variable fonts at master locations",
+    design="5 C10"),
  "C11": dict(
     text="Names.tla transcribes _build_production_name / _unique_name on code-point sequences (so '.N' suffixes can collide); "
          "TLC checks uniqueness / supplied-name-prefix / legal characters for every supplied-name sequence from a colliding pool; "
